@@ -188,9 +188,18 @@ class PropertyRun:
             if sat:
                 self.handle_failed(name, sat[0], "refuted")
                 continue
-            # undecided by every back end: one retry with a larger budget (verdicts must not flip under load)
+            # undecided by every back end: (1) the query without its quantified assumptions -- unsat there is unsat of the
+            # full query, sat there is only a candidate; (2) one retry with a larger budget
             pend = [o for o in os_ if o.result != "unsat"]
             for o in pend:
+                rtxt = smt.to_smt2_relaxed(o.axioms, o.assumptions, o.goal)
+                rr = smt.solve(rtxt, self.timeout)
+                o.tried = o.tried + [("relaxed:" + str(b), v, t) for b, v, t in rr["tried"]]
+                if rr["verdict"] == "unsat":
+                    o.result, o.backend, o.time = "unsat", "relaxed/" + str(rr["backend"]), o.time + rr["time"]
+                    continue
+                if rr["verdict"] == "sat":
+                    o.candidate = rr["raw"]
                 r = smt.solve(o.smt2, self.timeout * 2)
                 o.result, o.backend, o.time, o.raw = r["verdict"], r["backend"], o.time + r["time"], r["raw"]
                 o.tried = o.tried + r["tried"]
@@ -247,7 +256,7 @@ class PropertyRun:
                       "the obligation was discharged on the pinned tree (baseline/%s.json), the source it depends on has changed (%s) "
                       "and no back end can discharge it any more" % (self.pid, ", ".join(changed or [])))
         confirmed, detail, inputs = (False, "no counter-model", None)
-        if why == "refuted":
+        if why == "refuted" or o.contract.replay:
             confirmed, detail, inputs = replay_mod.try_replay(self, o)
         if not confirmed:
             key = o.contract.qn
